@@ -105,6 +105,9 @@ def validate(text, want_997=True, want_html=False, want_xml=False, charset=None,
             r.verdict = None
             f, fn = where(ex.__traceback__)
             r.exc = (type(ex).__name__, f, fn, str(ex)[:200])
+            ex = None
+            import gc
+            gc.collect()      # the sinks are closed by __del__; after an exception that waits for the cycle collector
     finally:
         pyx12.error_handler.err_handler = orig_cls
     r.errors = []
